@@ -104,7 +104,7 @@ def src_tree_hash(src):
     return h.hexdigest()
 
 
-def snapshot_and_annotate(contracts_dir=None, spec_dir=None, patch_fn=None):
+def snapshot_and_annotate(contracts_dir=None, spec_dir=None, patch_fn=None, only=None, specs=None):
     """-> (scratch_dir, index). Caller removes scratch_dir."""
     contracts_dir = contracts_dir or os.path.join(VERIF, 'contracts')
     spec_dir = spec_dir or os.path.join(VERIF, 'spec')
@@ -112,7 +112,8 @@ def snapshot_and_annotate(contracts_dir=None, spec_dir=None, patch_fn=None):
     shutil.copytree(os.path.join(REPO, 'src'), os.path.join(scratch, 'src'))
     if patch_fn:
         patch_fn(os.path.join(scratch, 'src'))
-    index = annotate.annotate_tree(os.path.join(REPO, 'src'), contracts_dir, spec_dir, os.path.join(scratch, 'src'))
+    index = annotate.annotate_tree(os.path.join(REPO, 'src'), contracts_dir, spec_dir, os.path.join(scratch, 'src'),
+                                   only=only, specs=specs)
     index['repo_src_sha256'] = src_tree_hash(os.path.join(REPO, 'src'))
     return scratch, index
 
